@@ -17,6 +17,25 @@ def _canary(gen):
     """append `assert(false)` at the top of every function under contract: each must then FAIL to verify;
     one that still verifies has contradictory preconditions / axioms (vacuous proof)"""
     gen.lines = [re.sub(r'/\*@BODY:[A-Za-z0-9_]+@\*/', ' proof { assert(false); } ', ln) for ln in gen.lines]
+    # labelled spec-level lemmas: a twin with the same premises and `ensures false` must fail as well
+    text = '\n'.join(gen.lines)
+    twins = []
+    for name, info in verus.template_functions(gen).items():
+        if info['kind'] != 'proof' or not info['labels']:
+            continue
+        a, b = info['out_lines']
+        body = '\n'.join(gen.lines[a - 1:b])
+        m = re.search(r'\n\s*ensures\b', body)
+        k = body.find('requires')
+        if not m or k < 0 or k > m.start():
+            continue
+        head = body[:m.start()].replace('fn ' + name, 'fn ' + name + '__canary', 1)
+        twins.append(head + '\n    ensures false,\n{\n}\n')
+    if twins:
+        idx = max(i for i, ln in enumerate(gen.lines) if ln.strip().startswith('} // verus!'))
+        new_lines = ('\n'.join(twins)).split('\n')
+        gen.lines = gen.lines[:idx] + new_lines + gen.lines[idx:]
+        gen.origin = gen.origin[:idx] + [{'kind': 'template', 'unit': 'canary', 'line': 0}] * len(new_lines) + gen.origin[idx:]
     return gen
 
 
@@ -41,6 +60,9 @@ def run_thorough(prop, units, results, work):
                     alive.append(fn)      # assert(false) verified: vacuous
                 else:
                     dead.append(fn)
+            for fn, fr in r.functions.items():
+                if fn.endswith('__canary'):
+                    (alive if fr['success'] else dead).append(fn)
             out['canaries'][name] = {'functions_with_canary': len(alive) + len(dead), 'canary_failed_as_expected': len(dead), 'vacuous': alive}
             for fn in alive:
                 out['problems'].append('VACUOUS: assert(false) verifies inside %s (unit %s): contradictory precondition or axiom' % (fn, name))
